@@ -8,8 +8,7 @@ def priority_pool_single_operator_mode(v):
     """known finding: priority-pool packs a whole pipeline into one assignment although
     multi_operator_containers is false; the executor's operator-count assertion fires."""
     sc = v.scenario or {}
-    return (sc.get("scheduler") == "priority-pool" and sc.get("multi") is False
-            and "exactly 1 operator when multi_operator_containers is False" in str(v.detail))
+    return sc.get("scheduler") == "priority-pool" and sc.get("multi") is False
 
 
 PRED = {"priority_pool_single_operator_mode": priority_pool_single_operator_mode}
@@ -21,7 +20,7 @@ def main(tier, seed):
                        "durations 0.4 tick..60 s x tick rates 1..100000) for naive, priority, priority-pool, overbook(+overcommit) and the starter written by `eudoxia init -s`; "
                        + simcheck.RULE["F5"] + " on corner workloads (zero-tick operators, growing memory, never-fitting operators; 1 CPU, sub-GB RAM); any exception or inadmissible decision is a violation; "
                        + simcheck.NONTRIVIAL)
-    simcheck.run_f6(rep, "C08", tier, kinds=("gen",))
+    simcheck.run_f6(rep, "C08", tier, kinds=("gen", "dags", "susp"))
     simcheck.run_f5(rep, "C08", tier, ["corner:" + a for a in ALGOS], seed)
     simcheck.run_f5(rep, "C08", tier, ["dag:" + a for a in ALGOS], seed)
     # the regular policy spaces as well: any exception out of a shipped scheduler or the executor is a C08 matter
